@@ -1,6 +1,5 @@
-from . import props_bf, props_tape, props_static
+from . import props_bf, props_tape, props_static, props_parser, props_sv
 
 CHECKS = {}
-CHECKS.update(props_bf.CHECKS)
-CHECKS.update(props_tape.CHECKS)
-CHECKS.update(props_static.CHECKS)
+for m in (props_bf, props_tape, props_static, props_parser, props_sv):
+    CHECKS.update(m.CHECKS)
